@@ -225,6 +225,11 @@ struct model_watch_t
     int64_t               m_updates{0}, m_firstbad{-1};
     bool                  m_cutsOK{true}, m_errsOK{true}, m_sizeOK{true};
     double                m_worst{0.0};
+    // the largest |f| evaluated so far: the linearisation errors are differences of such values (with proximity parameters near the ends of
+    // their domains the trial points are 1e5 and more away), so their rounding error is a few ulp of THAT magnitude, not of |f(x)|
+    const vt::counting_function_t* m_counting{nullptr};
+    size_t                m_seen{0};
+    double                m_maxf{0.0};
 };
 model_watch_t* g_watch = nullptr;
 
@@ -237,17 +242,29 @@ void watch_bundle(const char*, const void* object)
     auto&       w      = *g_watch;
     const auto& bundle = *static_cast<const bundle_t*>(object);
     ++w.m_updates;
+    for (; w.m_counting != nullptr && w.m_seen < w.m_counting->evals().size(); ++w.m_seen)
+    {
+        const auto f = std::fabs(w.m_counting->evals()[w.m_seen].f);
+        w.m_maxf     = std::isfinite(f) ? std::max(w.m_maxf, f) : w.m_maxf;
+    }
     w.m_sizeOK = w.m_sizeOK && bundle.size() >= 1 && bundle.size() < bundle.verif_capacity();
+    if (!std::isfinite(bundle.fx()))
+    {
+        // a run that diverged until the objective overflowed (seen with proximity parameters near the ends of their domains: the momentum
+        // step of FPBA moves the bundle to a point with a non-finite value, the solver then stops with `failed`): the cuts are NaN, the
+        // model invariants say nothing about them
+        return;
+    }
     for (tensor_size_t i = 0; i < bundle.size(); ++i)
     {
         const auto s = bundle.verif_bundleS().vector(i);
         const auto e = bundle.verif_bundleE()(i);
-        w.m_errsOK   = w.m_errsOK && e >= -1e-9 * (1.0 + std::fabs(bundle.fx()));
+        w.m_errsOK   = w.m_errsOK && e >= -1e-9 * (1.0 + std::fabs(bundle.fx())) - 2e-14 * w.m_maxf;
         for (size_t k = 0; k < w.m_points.size(); ++k)
         {
             const auto lin   = s.dot(w.m_points[k].vector() - bundle.x().vector());
             const auto lower = bundle.fx() + lin - e;
-            const auto tol   = 1e-8 * (1.0 + std::fabs(bundle.fx()) + std::fabs(lin) + std::fabs(e) + std::fabs(w.m_values[k]));
+            const auto tol   = 1e-8 * (1.0 + std::fabs(bundle.fx()) + std::fabs(lin) + std::fabs(e) + std::fabs(w.m_values[k])) + 2e-14 * w.m_maxf;
             if (lower > w.m_values[k] + tol)
             {
                 w.m_cutsOK   = false;
@@ -366,7 +383,8 @@ void sharp_case(vt::Rng& rng, int64_t icase, bool small_bundle = false)
     {
         watch.m_values.push_back(function.vgrad(z));
     }
-    g_watch = &watch;
+    watch.m_counting = &counting;
+    g_watch          = &watch;
     try
     {
         state = solver->minimize(counting, x0, make_null_logger());
